@@ -4,18 +4,23 @@ from fractions import Fraction as F
 from vcheck import fmt_q
 import gen
 from props import amg_common as ac
-from props.common import account
+from props.common import account, diff_run
 
 COARS = ac.COARSENINGS
-DRIVERS = ["amgd_%s@poison" % c for c in COARS] + ["amg_%s@poison" % c for c in COARS] + ["amgd_%s@asan" % c for c in COARS]
+DRIVERS = ["amgd_%s@poison" % c for c in COARS] + ["amg_%s@poison" % c for c in COARS] + ["amgd_%s@asan" % c for c in COARS] + \
+          ["own", "own@asan"]
 EXTRA_FLAGS = {"@poison": ["-DVQ_POISON"],
-               "@asan": ["-fsanitize=address,undefined", "-fno-sanitize-recover=all", "-fno-omit-frame-pointer", "-g"]}
-MODEL = "amg"
+               "@asan": ["-fsanitize=address,undefined", "-fno-sanitize-recover=all", "-fno-omit-frame-pointer", "-g"],
+               "own@asan": ["-DOWN_NO_TRACKER"]}
+# the poison/sanitizer sections compare implementation runs with each other and do not call a model;
+# the model driver of this property is the extracted crs::own_data state machine (coq/Own.v)
+MODEL = "own"
 ASSUMPTIONS = [
     "prior heap contents are modelled by a poisoning operator new (fills 00 / FF / AA / pseudo-random); stack contents and allocator addresses are not varied",
-    "memory safety is checked by AddressSanitizer/UndefinedBehaviourSanitizer runs of the harness on the generated and the listed degenerate inputs (a test, reported as such); the Coq theorems cover junk-independence of the modelled kernels only",
+    "memory safety is checked by AddressSanitizer/UndefinedBehaviourSanitizer runs of the harness on the generated and the listed degenerate inputs (a test, reported as such); the Coq theorems cover junk-independence of the modelled kernels, the bounds-checked re-statement of spmv/transpose (coq/LowLevel.v) and the crs::own_data state machine (coq/Own.v) only",
+    "crs::own_data (C10-A3): ptr/col/val are modelled as one block unit (set_nonzeros(n, need_values=false), which leaves val null, is outside the model); the tracking allocator of harness/drv_own.cpp sees operator new[]/delete[] only; object lifetimes are those of the driver's std::map<int, shared_ptr<crs>>",
 ]
-RULE = "amg hierarchies (4 coarsenings x 5 relaxations) on generated SPD/non-symmetric systems and a fixed list of degenerate inputs (1x1, diagonal, disconnected, positive off-diagonals, n <= coarse_enough, max_levels = 1), each run under several heap fill patterns (double and exact builds) and under ASan+UBSan; non-trivial = non-zero output"
+RULE = "crs::own_data: op sequences (construct / zero_copy view / copy / move / copy-assign / move-assign / destroy, ids 0..4) on amgcl::backend::crs<double> under a tracking allocator and under ASan+LSan vs the extracted Own.step; non-trivial = the sequence contains an effective copy/move between two objects.  amg hierarchies (4 coarsenings x 5 relaxations) on generated SPD/non-symmetric systems and a fixed list of degenerate inputs (1x1, diagonal, disconnected, positive off-diagonals, n <= coarse_enough, max_levels = 1), each run under several heap fill patterns (double and exact builds) and under ASan+UBSan; non-trivial = non-zero output"
 
 def degenerate(r):
     """(name, n, rows) -- the degenerate inputs named by the property"""
@@ -64,7 +69,125 @@ def make_cases(tier, seed):
         cases.append(c)
     return cases
 
+# ------------------------------------------------------------------ C10-A3: crs::own_data life cycle
+OWN_TAGS1 = ["E", "O", "D"]                 # one id
+OWN_TAGS2 = ["C", "M", "c", "m"]            # target, source
+
+def own_fmt(cid, ops):
+    return "%s own %d %s" % (cid, len(ops), " ".join(" ".join(str(x) for x in o) for o in ops))
+
+def own_effective(ops):
+    """python mirror of the existence bookkeeping only: number of copy/move ops that are not no-ops"""
+    live = set(); eff = 0
+    for o in ops:
+        t = o[0]
+        if t in ("E", "O", "V"):
+            live.add(o[1])
+        elif t == "D":
+            live.discard(o[1])
+        elif t in ("C", "M"):
+            if o[1] not in live and o[2] in live: live.add(o[1]); eff += 1
+        elif t in ("c", "m"):
+            if o[1] in live and o[2] in live: eff += 1
+    return eff
+
+def own_cases(tier, seed):
+    r = random.Random(seed * 1000 + 110)
+    out = []
+    # all sequences up to a small length over a small alphabet (ids 0..1, one user block)
+    alpha = [(t, k) for t in OWN_TAGS1 for k in (0, 1)] + [("V", k, 0) for k in (0, 1)] + \
+            [(t, k, j) for t in ("C", "M") for (k, j) in ((0, 1), (1, 0))] + \
+            [(t, k, j) for t in ("c", "m") for (k, j) in ((0, 1), (1, 0), (0, 0))]
+    L = 3 if tier == "quick" else 4
+    seqs = [[]]
+    k = 0
+    for _ in range(L):
+        seqs = [q + [a] for q in seqs for a in alpha]
+        for q in seqs:
+            out.append(own_fmt("oe%d" % k, q)); k += 1
+    # random sequences: ids 0..4, user blocks 0..2, biased towards ops whose operands exist
+    N = 4000 if tier == "quick" else 40000
+    maxlen = 12 if tier == "quick" else 40
+    for i in range(N):
+        n = r.randint(1, maxlen)
+        live = set(); ops = []
+        for _ in range(n):
+            valid = r.random() < 0.85
+            t = r.choice(["E", "O", "O", "V", "V", "C", "M", "c", "c", "c", "m", "m", "D"])
+            ids = list(range(5))
+            dead = [x for x in ids if x not in live]; lv = sorted(live)
+            if t in ("E", "O", "V"):
+                kk = r.choice(dead) if (valid and dead) else r.choice(ids)
+                o = (t, kk, r.randint(0, 2)) if t == "V" else (t, kk)
+            elif t == "D":
+                o = (t, r.choice(lv) if (valid and lv) else r.choice(ids))
+            elif t in ("C", "M"):
+                kk = r.choice(dead) if (valid and dead) else r.choice(ids)
+                jj = r.choice(lv) if (valid and lv) else r.choice(ids)
+                o = (t, kk, jj)
+            else:
+                kk = r.choice(lv) if (valid and lv) else r.choice(ids)
+                jj = r.choice(lv) if (valid and lv) else r.choice(ids)
+                o = (t, kk, jj)
+            ops.append(o)
+            if o[0] in ("E", "O", "V") or (o[0] in ("C", "M") and o[1] not in live and o[2] in live): live.add(o[1])
+            elif o[0] == "D": live.discard(o[1])
+        out.append(own_fmt("or%d" % i, ops))
+    return out
+
+def own_parse_ops(line):
+    tk = line.split()[3:]
+    ops = []; i = 0
+    while i < len(tk):
+        if tk[i] in OWN_TAGS1: ops.append((tk[i], int(tk[i + 1]))); i += 2
+        else: ops.append((tk[i], int(tk[i + 1]), int(tk[i + 2]))); i += 3
+    return ops
+
+def run_own(ctx, lines):
+    def nontrivial(op, payload, impl_out):
+        return impl_out is not None and impl_out.startswith("leaks=") and own_effective(own_parse_ops("x own " + payload)) > 0
+    fails, impl, model = diff_run(ctx, "own", lines, nontrivial=nontrivial, shards=8,
+                                  theorem="C10-A3 correspondence: crs::own_data life cycle on amgcl::backend::crs<double> under the tracking allocator (drv_own) vs Own.step (theorems C10_own_*)")
+    # the oracle of the property itself, on the implementation's output alone
+    for l in lines:
+        cid = l.split(" ", 1)[0]
+        o = impl.get(cid) or ""
+        ctx["stats"]["oracle_checks"] += 1
+        bad = [w for w in ("leaks=", "freed_user=", "double_free=") if (w + "0 ") not in o]
+        if bad and not any(f["case"] == l for f in fails):
+            fails.append(dict(kind="counterexample", case=l, impl=o, model=model.get(cid), op="own", size=len(l),
+                              theorem="C10-A3: owned arrays are freed exactly once, borrowed arrays never (%s non-zero)" % ",".join(bad)))
+    # does a mismatch reproduce the historical copy assignment (before /repo 9a9c4a3)?
+    if fails:
+        fl = [f["case"] for f in fails][:2000]
+        old = ctx["run_driver"](ctx["model"], [l.replace(" own ", " own_old ", 1) for l in fl])
+        for f in fails:
+            cid = f["case"].split(" ", 1)[0]
+            f["input_class"] = "as-before-9a9c4a3" if (old.get(cid) is not None and old.get(cid) == f.get("impl")) else "own-sequence"
+    # the same sequences under ASan + LeakSanitizer (one process per case), no tracking allocator
+    sub = lines if len(lines) <= 1500 else lines[:: max(1, len(lines) // (1500 if ctx["tier"] == "quick" else 6000))]
+    san = ctx["run_driver"](ctx["cpp"]["own@asan"], sub, env_extra={"ASAN_OPTIONS": "detect_leaks=1:abort_on_error=0", "UBSAN_OPTIONS": "print_stacktrace=1"},
+                            timeout=1500)
+    for l in sub:
+        cid = l.split(" ", 1)[0]
+        ctx["stats"]["oracle_checks"] += 1
+        o = san.get(cid); m = model.get(cid) or ""
+        want = "leaks=0 " + m[m.find("live_objects="):]
+        if o != want and not any(f["case"] == l for f in fails):
+            fails.append(dict(kind="counterexample", case=l, impl=o, model=want, op="own", size=len(l), input_class="own-sequence",
+                              theorem="C10-A3: crs::own_data life cycle under AddressSanitizer/LeakSanitizer (leak, bad free or state differs from Own.step)"))
+    for f in fails:
+        f.setdefault("input_class", "own-sequence"); f["site"] = "crs::own_data"; f["build"] = "own"
+    return fails
+
 def run(ctx, cases_override=None):
+    own_override = [l for l in (cases_override or []) if l.split(" ", 2)[1:2] == ["own"]]
+    if cases_override and len(own_override) == len(cases_override):
+        return run_own(ctx, own_override)
+    own_fails = [] if cases_override else run_own(ctx, own_cases(ctx["tier"], ctx["seed"]))
+    return own_fails + run_amg(ctx, cases_override)
+
+def run_amg(ctx, cases_override=None):
     cases = make_cases(ctx["tier"], ctx["seed"])
     if cases_override:
         ids = set(l.split(" ", 1)[0] for l in cases_override)
